@@ -270,3 +270,17 @@ Theorem C05_clone_takes_parent_reference :
   map (fun e => (P9V.Refs.GenTie.ev_name e, P9V.Refs.GenTie.ev_recv e)) (firstn 2 (skipn 4 l)) = [("hasParent", "$p1"); ("isDeleted", "#3")]%string.
 Proof. exact P9V.Refs.GenTie.clone_takes_parent_reference. Qed.
 Print Assumptions C05_clone_takes_parent_reference.
+
+(** Read off the generated table: the references renameChildTo takes for the Renamed notifications are dropped
+    by a DEFERRED loop registered before notifyNameChange runs, so a panic inside a Renamed callback does not
+    leak them (9cb54ca).  Backend panics are outside the model (no panic answer in [bans]): the clause
+    "every remaining File is closed once at disconnect" after such a panic is TESTED by the fault scenario
+    vhgRenamedPanic (panic injected into the Renamed of a File one / two levels below a renamed directory, then
+    every connection dropped; every File closed exactly once), not proved. *)
+Theorem C05_held_references_released_by_defer :
+  let l := P9V.Refs.GenTie.events_of "fidRef.renameChildTo" P9V.gen.RefsGen.refs_skeleton in
+  map (fun e => (P9V.Refs.GenTie.ev_name e, P9V.Refs.GenTie.ev_recv e, P9V.Refs.GenTie.ev_args e, P9V.Refs.GenTie.ev_cond e, P9V.Refs.GenTie.ev_ctx e)) (skipn 9 l) =
+  [("DecRef", "each1(var0)", [], ["(#1!=nil)"], ["defer"; "range var0"]);
+   ("notifyNameChange", "", ["#1"; "var0"], ["(#1!=nil)"], [])]%string.
+Proof. exact P9V.Refs.GenTie.held_references_released_by_defer. Qed.
+Print Assumptions C05_held_references_released_by_defer.
